@@ -21,6 +21,8 @@ def check(prog, rep, tier):
                       'send methods; on every path all writes go to the transport of the protocol the FSM tracks')
     rep.rule('R12.e', 'a late connectionLost of an earlier, already closed connection does not touch the tracked '
                       'connection: fsm.protocol / estab_protocol and the state are unchanged')
+    rep.rule('R12.h', 'a connection that comes up is adopted or closed: no TCP-established path ends in Idle with the '
+                      'new connection left open')
     rep.rule('R12.g', 'an attempt is recorded: every path that starts a TCP connect leaves the state machine in '
                       'Connect (or Active), so that no other start event dials beside it')
     rep.rule('R12.f', 'every path on which the agent abandons a live tracked connection (ends in Idle from a '
@@ -197,6 +199,30 @@ def check(prog, rep, tier):
                         key=name, path=r.describe())
     if not seen:
         rep.undecided('R12.g', 'attempt-recorded', found='no row starts a connect')
+
+    # ---------------------------------------------------------------- R12.h
+    seen = {}
+    for (ev, state), rows in sorted(tab.rows.items()):
+        if ev != 'TCP_UP':
+            continue
+        for r in rows:
+            if r.kind == 'raise':
+                continue
+            name = 'connection-adopted:%s@%s' % (ev, state)
+            if r.final == 'Idle' and not r.closes():
+                if seen.get(name) != 'bad':
+                    seen[name] = 'bad'
+                    rep.bad('R12.h', name, file=common.row_file(r), line=common.row_line(r), func=common.row_func(r),
+                            found='a connection that comes up while the state machine is in %s is neither adopted '
+                                  '(the machine ends in Idle, no OPEN, no timer) nor closed: it stays open, and the next '
+                                  'start dials a second one beside it' % state,
+                            expected='adopt the connection (Connect -> OpenSent) or close it', key=name,
+                            path=r.describe())
+            elif name not in seen:
+                seen[name] = 'ok'
+                rep.ok('R12.h', name, file=common.row_file(r), line=common.row_line(r))
+    if not seen:
+        rep.undecided('R12.h', 'connection-adopted', found='no TCP_UP rows')
 
     # ---------------------------------------------------------------- R12.d
     bgp = prog.cls(BGP_Q)
